@@ -20,6 +20,17 @@ summation orders), and Lanczos amplifies rounding by s / beta_j at every step, s
     first undetermined decision only the determined prefix is compared.
 Everything after a breakdown is rounding noise amplified by the normalisation and is judged by the
 spec oracle only.
+
+Streams (round 2).  The CONTRACT stream (88 %) generates inputs that satisfy the input conditions of the
+theorems (C14_grade / C14_batch_inputs) with a margin above rounding: the grade d of every start vector
+(number of eigen-components, `krylov_dim`) is unambiguous, and either d >= min(max_iters, n) for every
+member, or tol > 1, or all members share one grade d >= 2 and tol >= 1e-7 (the exit at the grade is then
+decided far above the rounding level).  The DEFECT stream (12 %) constructs, under a label, inputs of the
+three recorded defect classes (batch-member-breakdown, eigenvector-start-undetected, tol-below-rounding);
+the evidence reports per label how many inputs reproduced the defect, and the three witness inputs of
+/verif/known_findings.json are replayed literally on every run.  For single start vectors the model's
+`lanczosEigs` is executed by the driver (with a Jacobi `eigh`, whose contract residual is measured) and
+compared with the real `lanczos_eigs`.
 """
 import json
 import os
@@ -71,6 +82,9 @@ ETA = 1e-9       # margin (relative to ||A||) for a determined exit decision
 AMP_MAX = 1e4    # accumulated amplification beyond which columns are not compared
 CMP_TOL = 1e-8   # relative comparison tolerance real vs model
 SPEC_TOL = 1e-8  # tolerance of the spec oracle (relative to ||A||, entries of unit vectors)
+EIG_TOL = 1e-7   # Ritz values, model vs real (relative to ||A||): eigenvalues of two T's that agree to CMP_TOL
+EIG_GAP = 1e-3   # Ritz vectors are compared (up to a unit factor) when the Ritz value is separated by EIG_GAP * ||A||
+EIGVEC_TOL = 1e-6  # 1 - |cos(angle)| between the real and the model Ritz vector
 MAX_VIOLATION_LINES = 5   # further failing inputs of the same run are counted, not written
 
 
@@ -157,8 +171,16 @@ def start_vector(rng, nrng, n, cplx, U, lam, kind):
     return np.asarray(v)
 
 
-def gen_case(rng, cid, nmax):
+LOW_TOLS = [0.0, 1e-14]
+DEFECT_LABELS = ["batch-member-breakdown", "eigenvector-start-undetected", "tol-below-rounding"]
+
+
+def gen_case(rng, cid, nmax, mode="contract"):
+    """mode: "contract" (proposal for the contract stream, filtered by `in_contract`), "legacy" (the round-1 mixture),
+    or one of DEFECT_LABELS (construction of that defect class)"""
     n = rng.choice([1, 2, 2, 3, 3, 4, 5, 6, 7, 8, 9, 10, 11, 12]) if nmax <= 12 else rng.randint(1, nmax)
+    if mode in DEFECT_LABELS:
+        n = max(n, 3)
     n = min(n, nmax)
     cplx = rng.random() < 0.4
     skind = rng.choice(["simple", "simple", "simple", "repeated", "repeated", "clustered", "geometric"])
@@ -185,7 +207,20 @@ def gen_case(rng, cid, nmax):
         A, U = make_hermitian(nrng, n, cplx, lam)
     batch = rng.random() < 0.3
     kinds = ["generic", "generic", "eigvec", "sum2", "sum3"]
-    if batch:
+    if mode == "batch-member-breakdown":
+        batch = True
+        k = rng.randint(2, 4)
+        sk = [rng.choice(["eigvec", "sum2"])] + ["generic"] + [rng.choice(kinds) for _ in range(k - 2)]
+        rng.shuffle(sk)
+    elif mode == "eigenvector-start-undetected":
+        batch, sk = False, ["eigvec"]
+    elif mode == "tol-below-rounding":
+        batch, sk = False, [rng.choice(["sum2", "sum3"])]
+    elif mode == "contract" and batch:
+        k = rng.randint(1, 4)
+        common = rng.choice(["generic", "generic", "generic", "sum2", "sum3"])    # one grade for the whole batch
+        sk = [common] * k
+    elif batch:
         k = rng.randint(1, 4)
         sk = [rng.choice(kinds) for _ in range(k)]
     else:
@@ -211,10 +246,52 @@ def gen_case(rng, cid, nmax):
             starts.append(start_vector(rng, nrng, n, cplx, U, lam, kd))
     max_iters = rng.randint(1, n + 3)
     tol = rng.choice([1e-7, 1e-7, 1e-7, 1e-7, 1e-10, 1e-4, 1e-2, 0.0, 0.5, 1.5, 1e-14])
+    if mode == "batch-member-breakdown":
+        max_iters = rng.randint(3, n + 3)
+        tol = rng.choice([1e-7, 1e-7, 1e-10, 1e-4, 1e-2])
+    elif mode == "eigenvector-start-undetected":
+        max_iters = rng.randint(2, n + 3)
+        tol = rng.choice([1e-7, 1e-7, 1e-10, 1e-4, 1e-2, 0.5, 0.0, 1e-14])
+    elif mode == "tol-below-rounding":
+        max_iters = rng.randint(min(n, 4), n + 3)
+        tol = rng.choice(LOW_TOLS)
+    elif mode == "contract" and any(kd != "generic" for kd in sk):
+        tol = rng.choice([1e-7, 1e-7, 1e-7, 1e-4, 1e-2, 0.5, 1.5])
     dt = complex if cplx else float
     return {"id": cid, "n": n, "cplx": cplx, "A": np.asarray(A, dtype=dt),
             "starts": [np.asarray(v, dtype=dt) for v in starts], "batch": batch,
-            "max_iters": max_iters, "tol": tol, "spectrum": skind, "definite": definite, "start_kinds": sk}
+            "max_iters": max_iters, "tol": tol, "spectrum": skind, "definite": definite, "start_kinds": sk,
+            "stream": "contract" if mode == "contract" else ("legacy" if mode == "legacy" else "defect:" + mode)}
+
+
+def in_contract(c):
+    """the input conditions of C14_grade / C14_batch_inputs, with a margin above rounding (see the module docstring)"""
+    A = c["A"]
+    s = norm2(A)
+    cap = min(c["max_iters"], c["n"])
+    ds = []
+    for v in c["starts"]:
+        d, _ = krylov_dim(A, v, s)
+        if d is None:
+            return False
+        ds.append(d)
+    if all(d >= cap for d in ds):
+        # the rounding residue after a full Krylov space (cap == n == d) only matters for max_iters > n, where the cap stops the loop
+        return True
+    if c["tol"] > 1.0:
+        return True                      # beta_1 > tol * beta_1 is false: one column, whatever the start
+    if len(set(ds)) == 1 and ds[0] >= 2 and c["tol"] >= 1e-7:
+        return True                      # common grade, exit decided far above rounding
+    return False
+
+
+def gen_contract_case(rng, cid, nmax):
+    for _ in range(200):
+        c = gen_case(rng, cid, nmax, "contract")
+        if in_contract(c):
+            return c
+    c["stream"] = "legacy"
+    return c
 
 
 def case_to_json(c):
@@ -223,7 +300,8 @@ def case_to_json(c):
             "A": [[enc_entry(x, cplx) for x in row] for row in c["A"]],
             "starts": [[enc_entry(x, cplx) for x in v] for v in c["starts"]],
             "batch": c["batch"], "max_iters": c["max_iters"], "tol": bits(c["tol"]),
-            "spectrum": c.get("spectrum"), "definite": c.get("definite"), "start_kinds": c.get("start_kinds")}
+            "spectrum": c.get("spectrum"), "definite": c.get("definite"), "start_kinds": c.get("start_kinds"),
+            "stream": c.get("stream"), "eigs": not c["batch"]}
 
 
 def case_from_json(j):
@@ -234,7 +312,8 @@ def case_from_json(j):
     return {"id": j.get("id", 0), "n": n, "cplx": cplx, "A": A,
             "starts": [np.array([dec_entry(x) for x in v], dtype=dt) for v in j["starts"]],
             "batch": j["batch"], "max_iters": j["max_iters"], "tol": unbits(j["tol"]),
-            "spectrum": j.get("spectrum"), "definite": j.get("definite"), "start_kinds": j.get("start_kinds")}
+            "spectrum": j.get("spectrum"), "definite": j.get("definite"), "start_kinds": j.get("start_kinds"),
+            "stream": j.get("stream") or "replay"}
 
 
 # ----------------------------------------------------------------------------------------------
@@ -303,7 +382,7 @@ def run_model(cases, nproc=16):
     errs = []
 
     def feed(p, ch):
-        data = "".join(json.dumps({k: v for k, v in c.items() if k in ("id", "n", "cplx", "A", "starts", "max_iters", "tol")}) + "\n" for c in ch)
+        data = "".join(json.dumps({k: v for k, v in c.items() if k in ("id", "n", "cplx", "A", "starts", "max_iters", "tol", "eigs")}) + "\n" for c in ch)
         so, se = p.communicate(data)
         if p.returncode != 0:
             errs.append(se[-2000:])
@@ -332,6 +411,12 @@ def model_arrays(ans, cplx):
             "diag": dec_vec(ans["diag"][b]), "sub": dec_vec(ans["sub"][b]),
             "diag_full": dec_vec(ans["diag_full"][b]), "sub_full": dec_vec(ans["sub_full"][b])})
     out["errors"] = np.array([np.real(dec_entry(e)) for e in ans["errors"]], dtype=float)
+    if "eigvals" in ans:
+        out["eigvals"] = np.real(dec_vec(ans["eigvals"])) if ans["eigvals"] else np.zeros(0)
+        cols = [dec_vec(col) for col in ans["eigvecs"]]
+        out["eigvecs"] = np.array(cols).T if cols else np.zeros((0, 0))
+        out["eigh_residual"] = unbits(ans["eigh_residual"])
+        out["eigh_orth"] = unbits(ans["eigh_orth"])
     return out
 
 
@@ -607,6 +692,37 @@ def compare(c, s, real, M):
             if not e <= CMP_TOL * st:
                 mism.append(("subdiag", f"member {b}: max diff {e:.3e}"))
     info["compared_cols"] = J
+    # lanczos_eigs: model (driver, Jacobi eigh) against the real code, when the whole run is determined
+    if ("eigvals" in M and "eigvals" in real and info["undetermined_at"] is None and kr == km and not mism
+            and all(b is None or b >= km for b in info["breakdown"]) and all(d >= km for d in info["determined_cols"])):
+        info["eigh_residual"] = float(M["eigh_residual"])
+        info["eigh_orth"] = float(M["eigh_orth"])
+        if not (M["eigh_residual"] <= 1e-10 and M["eigh_orth"] <= 1e-10):
+            mism.append(("eigh-contract-premise", f"driver's Jacobi eigh: residual {M['eigh_residual']:.2e} orth {M['eigh_orth']:.2e}"))
+        evr, evm = np.real(real["eigvals"]), M["eigvals"]
+        if evr.shape != evm.shape:
+            mism.append(("eigs-count", f"real {evr.shape} model {evm.shape}"))
+        else:
+            e = np.abs(evr - evm).max() if evr.size else 0.0
+            info["maxdiff_eigs"] = float(e / st)
+            if not e <= EIG_TOL * st:
+                mism.append(("eigvals", f"max diff {e:.3e} (||A||={s:.3e})"))
+            Vr, Vm = real["eigvecs"], M["eigvecs"]
+            if Vr.shape != Vm.shape:
+                mism.append(("eigvecs-shape", f"real {Vr.shape} model {Vm.shape}"))
+            else:
+                worst = 0.0
+                for j in range(evm.size):
+                    gap = min([abs(evm[j] - evm[i]) for i in range(evm.size) if i != j] or [np.inf])
+                    if gap < EIG_GAP * st:
+                        continue
+                    cosang = abs(np.vdot(Vr[:, j], Vm[:, j])) / max(np.linalg.norm(Vr[:, j]) * np.linalg.norm(Vm[:, j]), 1e-300)
+                    worst = max(worst, 1.0 - cosang)
+                    info["eigvecs_compared"] = info.get("eigvecs_compared", 0) + 1
+                info["maxdev_eigvecs"] = float(worst)
+                if worst > EIGVEC_TOL:
+                    mism.append(("eigvecs", f"1 - |cos| = {worst:.3e} for a Ritz vector with separated Ritz value"))
+        info["eigs_compared"] = True
     return mism, info
 
 
@@ -751,6 +867,37 @@ def signature(c, res):
             tuple(cm.get("breakdown") or ()))
 
 
+def make_stream(rng, first_id, count, nmax):
+    """88 % contract stream, 12 % labelled defect stream (4 % per recorded clause)"""
+    out = []
+    for i in range(count):
+        if i % 25 < 3:
+            out.append(gen_case(rng, first_id + i, nmax, DEFECT_LABELS[i % 25]))
+        else:
+            out.append(gen_contract_case(rng, first_id + i, nmax))
+    return out
+
+
+def witness_cases(first_id):
+    """the witness inputs of the C14 entries of /verif/known_findings.json, literally"""
+    w = []
+    A1 = np.diag([1.0, 2.0, 3.0])
+    w.append({"A": A1, "starts": [np.array([1.0, 0.0, 0.0]), np.array([1.0, 1.0, 1.0])], "batch": True, "max_iters": 3,
+              "tol": 1e-7, "clause": "batch-member-breakdown"})
+    A2 = np.array([[4.0, 1.0, 2.0], [1.0, 3.0, 0.0], [2.0, 0.0, 5.0]])
+    w.append({"A": A2, "starts": [np.linalg.eigh(A2)[1][:, 0].copy()], "batch": False, "max_iters": 2, "tol": 1e-7,
+              "clause": "eigenvector-start-undetected"})
+    A3 = np.diag([1.0, 2.0, 3.0, 4.0])
+    w.append({"A": A3, "starts": [np.array([1.0, 1.0, 0.0, 0.0])], "batch": False, "max_iters": 4, "tol": 0.0,
+              "clause": "tol-below-rounding"})
+    out = []
+    for i, d in enumerate(w):
+        out.append({"id": first_id + i, "n": d["A"].shape[0], "cplx": False, "A": d["A"], "starts": d["starts"],
+                    "batch": d["batch"], "max_iters": d["max_iters"], "tol": d["tol"], "spectrum": "witness",
+                    "definite": True, "start_kinds": ["witness"] * len(d["starts"]), "stream": "witness:" + d["clause"]})
+    return out
+
+
 def run(ctx):
     gate = None
     gate_err = None
@@ -770,12 +917,13 @@ def run(ctx):
     else:
         N = 2500 if not ctx.thorough else 40000
         nmax = 12
-        cases = [gen_case(rng, i, nmax) for i in range(N)]
+        cases = make_stream(rng, 0, N, nmax)
         if ctx.thorough:
-            cases += [gen_case(rng, N + i, 40) for i in range(3000)]
+            cases += make_stream(rng, N, 3000, 40)
+        cases += witness_cases(9 * 10 ** 6)
         big = []
         if ctx.thorough:
-            big = [gen_case(rng, 10 ** 6 + i, 300) for i in range(400)]
+            big = make_stream(rng, 10 ** 6, 400, 300)
     # model
     jcases = [case_to_json(c) for c in cases]
     t0 = time.time()
@@ -787,6 +935,9 @@ def run(ctx):
             "complex": 0, "real": 0, "spectra": {}, "start_kinds": {}, "tol": {}, "undetermined_exit": 0,
             "numerical_breakdown_cases": 0, "eigs_checked": 0, "columns_compared": 0, "rank_tested_columns": 0,
             "clauses": {}}
+    streams = {}          # stream -> outcome counts
+    produced = {}         # defect label -> how many inputs of its stream reproduced exactly that clause
+    witness_seen = {}     # recorded clause -> did its literal witness reproduce it
     sigs = set()
     samples = []
     nontrivial = 0
@@ -799,6 +950,13 @@ def run(ctx):
         ans = answers.get(c["id"], {"error": "no answer from the driver"})
         res = evaluate(c, real, ans)
         outcomes[res["status"]] += 1
+        stream = c.get("stream") or "replay"
+        streams.setdefault(stream, {})
+        streams[stream][res["status"]] = streams[stream].get(res["status"], 0) + 1
+        if stream.startswith("defect:") and stream[7:] in res["clauses"]:
+            produced[stream[7:]] = produced.get(stream[7:], 0) + 1
+        if stream.startswith("witness:"):
+            witness_seen[stream[8:]] = bool(res["status"] == "modelled-defect" and stream[8:] in res["clauses"])
         # distributions
         dist["n"][c["n"]] = dist["n"].get(c["n"], 0) + 1
         dist["cap_vs_n"]["below" if c["max_iters"] < c["n"] else "equal" if c["max_iters"] == c["n"] else "above"] += 1
@@ -818,6 +976,12 @@ def run(ctx):
             dist["numerical_breakdown_cases"] += 1
         if "eigvals" in real:
             dist["eigs_checked"] += 1
+        if cm.get("eigs_compared"):
+            dist["eigs_model_vs_real"] = dist.get("eigs_model_vs_real", 0) + 1
+            dist["eigvecs_compared"] = dist.get("eigvecs_compared", 0) + cm.get("eigvecs_compared", 0)
+            dist["max_deviation_eigvals_rel"] = max(dist.get("max_deviation_eigvals_rel", 0.0), cm.get("maxdiff_eigs", 0.0))
+            dist["max_deviation_eigvecs"] = max(dist.get("max_deviation_eigvecs", 0.0), cm.get("maxdev_eigvecs", 0.0))
+            dist["max_eigh_contract_residual"] = max(dist.get("max_eigh_contract_residual", 0.0), cm.get("eigh_residual", 0.0))
         dist["columns_compared"] += max(0, cm.get("compared_cols") or 0) * len(c["starts"])
         dist["max_deviation_Q"] = max(dist.get("max_deviation_Q", 0.0), cm.get("maxdiff_Q", 0.0))
         dist["max_deviation_T_rel"] = max(dist.get("max_deviation_T_rel", 0.0), cm.get("maxdiff_T", 0.0))
@@ -907,6 +1071,13 @@ def run(ctx):
         else:
             outcomes["ok"] += 1
     t_real = time.time() - t0
+    obsolete = []
+    if not ctx.replay:
+        for cl in DEFECT_LABELS:
+            if not witness_seen.get(cl):
+                obsolete.append(cl)
+                print(f"NOTE: property=C14 recorded clause {cl}: its witness input of known_findings.json did NOT reproduce the defect on "
+                      f"this tree (stream reproduced it {produced.get(cl, 0)} times)", flush=True)
     if first_mismatch is not None:
         # real != model and no input of the stream violates the property statement on the real code
         c, res, real = first_mismatch
@@ -929,8 +1100,19 @@ def run(ctx):
                  "A = U diag(lambda) U^H (kappa <= 1e3; simple / repeated / clustered / geometric spectra, definite and indefinite, "
                  "real symmetric and complex Hermitian) and exactly representable integer matrices (exact breakdowns); start vectors "
                  "generic / eigenvector / sum of 2-3 eigenvectors / batches of 1-4 columns; max_iters 1..n+3; "
-                 "tol in {1e-7, 1e-10, 1e-4, 1e-2, 0, 0.5, 1.5, 1e-14}; all randomness from random.Random(seed)"),
+                 "tol in {1e-7, 1e-10, 1e-4, 1e-2, 0, 0.5, 1.5, 1e-14}; 88 % of the inputs are filtered to satisfy the input conditions of the "
+                 "theorems (contract stream: early termination only at a common grade >= 2 with tol >= 1e-7, or tol > 1), 12 % are labelled "
+                 "constructions of the recorded defect classes, plus the three recorded witness inputs; all randomness from random.Random(seed)"),
         "distributions": dist,
+        "streams": {
+            "outcomes_by_stream": streams,
+            "contract_stream_excused": streams.get("contract", {}).get("modelled-defect", 0),
+            "defect_stream_reproduced_label": produced,
+            "recorded_witness_reproduced": witness_seen,
+            "recorded_clauses_not_reproduced_by_witness": obsolete,
+            "note": "contract stream = inputs satisfying the input conditions of C14_grade / C14_batch_inputs with a margin above rounding "
+                    "(in_contract); defect stream = labelled constructions of the three recorded defect classes; witness = the inputs recorded "
+                    "in known_findings.json"},
         "samples": samples,
         "known_findings_seen": [list(k) for k in ctx.known],
         "violations_not_written": suppressed,
@@ -940,7 +1122,8 @@ def run(ctx):
         "trusted_base_extra": [
             "Model/Lanczos.lean is generic over the law-free classes Lanczos.Num / Lanczos.VecOps; the theorems are about its "
             "instance at exact arithmetic (RCLike field, inner product space), the correspondence runs its Float instance",
-            "numpy.linalg.eigh / LAPACK inside lanczos_eigs is a parameter of the model (contract as hypothesis)"],
+            "numpy.linalg.eigh / LAPACK inside lanczos_eigs is a parameter of the model (contract `eigh_contract` as hypothesis; witnessed by "
+            "C14_eigh_contract_witness); the driver instantiates it with cyclic Jacobi rotations and reports the measured contract residual"],
     }
     common.write_evidence(ctx, gate, cov, assumptions=[
         "start vector non-zero, tol >= 0, max_iters >= 1, A Hermitian (the routine is not defined otherwise)",
